@@ -5,6 +5,7 @@ import (
 	"go/token"
 	"go/types"
 	"sort"
+	"strings"
 
 	"golang.org/x/tools/go/ssa"
 )
@@ -16,6 +17,7 @@ import (
 // (C06's threshold formula and C18's view-to-leader mapping are stated for 64-bit totals / views). These are facts about
 // the shipped primitives package; they are checked here instead of being assumed.
 func runPrimitives(a *Analyzer, r *Results) {
+	runProtoTables(a, r)
 	pkg := a.P.ByPath[modPath+"/spec/types/go/primitives"]
 	if pkg == nil {
 		r.Undecided = append(r.Undecided, "primitives package not loaded (PRIM anchor)")
@@ -191,4 +193,140 @@ func primKey(fn *ssa.Function, isBytes bool) (bool, string) {
 		}
 	}
 	return false, "the key is not string(x), hex of the whole value, or the integer itself: distinct values may collide"
+}
+
+// PROTO.fields: the generated writer and reader of every wire message agree on the position and the wire kind of every
+// field. All rules read messages through accessor names (`header.View()`, `ref.BlockHash()`): an accessor that reads
+// another slot, or a writer that emits the fields in another order, silently changes what every check is applied to.
+func runProtoTables(a *Analyzer, r *Results) {
+	pkg := a.P.ByPath[modPath+"/spec/types/go/protocol"]
+	if pkg == nil {
+		r.Undecided = append(r.Undecided, "protocol package not loaded (PROTO anchor)")
+		return
+	}
+	pr := props("C20", "C08", "C03", "C01", "C07", "C09", "C11", "C04")
+	fieldOf := func(v ssa.Value) string {
+		for i := 0; i < 8 && v != nil; i++ {
+			switch x := v.(type) {
+			case *ssa.UnOp:
+				v = x.X
+			case *ssa.Convert:
+				v = x.X
+			case *ssa.ChangeType:
+				v = x.X
+			case *ssa.MakeInterface:
+				v = x.X
+			case *ssa.ChangeInterface:
+				v = x.X
+			case *ssa.FieldAddr:
+				if pt, ok := x.X.Type().Underlying().(*types.Pointer); ok {
+					if st, ok := pt.Elem().Underlying().(*types.Struct); ok {
+						return st.Field(x.Field).Name()
+					}
+				}
+				return ""
+			case *ssa.Call:
+				// w.arrayOfX(): the field is named in the helper
+				if sc := x.Call.StaticCallee(); sc != nil && strings.HasPrefix(sc.Name(), "arrayOf") {
+					return strings.TrimPrefix(sc.Name(), "arrayOf")
+				}
+				return ""
+			default:
+				return ""
+			}
+		}
+		return ""
+	}
+	nTypes := 0
+	for _, f := range a.P.Funcs {
+		if f.Name() != "Write" || f.Signature.Recv() == nil || funcPkgPath(f) != pkg.PkgPath {
+			continue
+		}
+		bt := typeShortName(f.Signature.Recv().Type())
+		if !strings.HasSuffix(bt, "Builder") {
+			continue
+		}
+		reader := strings.TrimSuffix(bt, "Builder")
+		type slot struct{ kind, field string }
+		var slots []slot
+		union := false
+		blocks := append([]*ssa.BasicBlock{}, f.Blocks...)
+		sort.Slice(blocks, func(i, j int) bool { return blocks[i].Index < blocks[j].Index })
+		for _, b := range blocks {
+			for _, in := range b.Instrs {
+				c, ok := in.(*ssa.Call)
+				if !ok {
+					continue
+				}
+				sc := c.Call.StaticCallee()
+				if sc == nil || !strings.HasPrefix(sc.Name(), "Write") || sc.Name() == "WriteOverrideWithRawBuffer" || !strings.Contains(funcPkgPath(sc), "membuffers") {
+					continue
+				}
+				kind := strings.TrimPrefix(sc.Name(), "Write")
+				if kind == "UnionIndex" {
+					union = true
+					continue
+				}
+				fld := ""
+				if len(c.Call.Args) >= 3 {
+					fld = fieldOf(c.Call.Args[2])
+				} else if len(c.Call.Args) >= 2 {
+					fld = fieldOf(c.Call.Args[len(c.Call.Args)-1])
+				}
+				slots = append(slots, slot{kind, fld})
+			}
+		}
+		if union || len(slots) == 0 {
+			continue // the union's alternatives all sit in slot 0 and are judged by W2.*
+		}
+		nTypes++
+		for i, sl := range slots {
+			name := sl.field
+			if sl.kind == "MessageArray" {
+				name += "Iterator"
+			}
+			acc := a.P.FuncByID["(*spec/types/go/protocol."+reader+")."+name]
+			why := ""
+			if sl.field == "" {
+				why = fmtf("the writer's slot %d does not write a field of the builder", i)
+			} else if acc == nil {
+				why = "no reader accessor " + reader + "." + name
+			} else {
+				found := false
+				for _, ab := range acc.Blocks {
+					for _, ai := range ab.Instrs {
+						gc, ok := ai.(*ssa.Call)
+						if !ok {
+							continue
+						}
+						gs := gc.Call.StaticCallee()
+						if gs == nil || !strings.HasPrefix(gs.Name(), "Get") || !strings.Contains(funcPkgPath(gs), "membuffers") {
+							continue
+						}
+						found = true
+						gk := strings.TrimPrefix(gs.Name(), "Get")
+						okKind := gk == sl.kind || (sl.kind == "Message" && gk == "MessageInOffset") || (sl.kind == "MessageArray" && gk == "MessageArrayIterator")
+						idx := int64(-1)
+						if len(gc.Call.Args) >= 2 {
+							if k, isK := gc.Call.Args[1].(*ssa.Const); isK && k.Value != nil {
+								idx = k.Int64()
+							}
+						}
+						if !okKind {
+							why = fmtf("written as %s, read with Get%s", sl.kind, gk)
+						} else if idx != int64(i) {
+							why = fmtf("written at position %d, read from position %d", i, idx)
+						}
+					}
+				}
+				if !found {
+					why = reader + "." + name + " does not read the message"
+				}
+			}
+			r.Check("PROTO.fields", pr, "the generated writer and reader of a wire message agree on the position and kind of every field (an accessor reads the slot the builder wrote under that name)", reader+"."+sl.field, a.P.Pos(f.Pos()), why == "", why, "D")
+		}
+	}
+	if nTypes < 8 {
+		r.Undecided = append(r.Undecided, fmtf("only %d wire message writers found (11 confirmed by reading)", nTypes))
+	}
 }
